@@ -60,6 +60,9 @@ pub enum PeerOp {
     /// but — as every uTP packet — stamped with the *current* acknowledgement and receive window. Falls back to a
     /// pure ack when the peer has not sent data yet.
     DupDataWnd { wnd: u32 },
+    /// (hostile) a data packet numbered `d` + 1 beyond the peer's own FIN — "after FIN" in the arrival orders C04
+    /// quantifies over. Skipped while the peer has not sent a FIN.
+    DataAfterFin { d: u8, len: u16 },
     /// a Crafted packet whose encoding is then damaged: bytes overwritten, first-extension byte forced,
     /// junk appended, truncated
     Mangled { base: Box<PeerOp>, flips: Vec<(u16, u8)>, first_ext: Option<u8>, append: Vec<u8>, trunc: Option<u16> },
@@ -591,6 +594,20 @@ pub fn run(case: &SpCase, trace: bool) -> SpResult {
                         if *dseq == 0 {
                             peer.next_seq = peer.next_seq.wrapping_add(1);
                         }
+                        peer.send(p);
+                    }
+                    PeerOp::DataAfterFin { d, len } => {
+                        let Some(fin) = peer.fin_seqs.iter().copied().max_by_key(|f| dist(*f, peer.next_seq)) else {
+                            res.skipped_data_ops += 1;
+                            settle().await;
+                            continue;
+                        };
+                        let seq = fin.wrapping_add(1 + *d as u16);
+                        let len = *peer.lens.entry(seq).or_insert((*len).max(1));
+                        res.peer_data_sent.push((net.log_len(), seq));
+                        let mut p = peer.base(refparse::ST_DATA);
+                        p.seq = seq;
+                        p.payload = peer_payload(peer.key, seq, len as usize);
                         peer.send(p);
                     }
                     PeerOp::DupDataWnd { wnd } => {
